@@ -102,6 +102,10 @@ impl<C: Config, Q: Query> Snapshot<C, Q> {
             }
         }
 
-        self.done_backward_projection(backward_projection_lock_guard).await;
+        self.done_backward_projection(
+            backward_projection_lock_guard,
+            caller_information.clone_active_computation_guard(),
+        )
+        .await;
     }
 }
